@@ -1435,6 +1435,8 @@ func (c *Client) sendSingleMsg(client *smtp.Client, message *Msg) error {
 	if hasError {
 		if resetSendErr := client.Reset(); resetSendErr != nil {
 			rcptSendErr.errlist = append(rcptSendErr.errlist, resetSendErr)
+			// the transaction could not be abandoned: do not send anything else into it
+			_ = client.Close()
 		}
 		return rcptSendErr
 	}
@@ -1447,6 +1449,8 @@ func (c *Client) sendSingleMsg(client *smtp.Client, message *Msg) error {
 		}
 		if resetSendErr := client.Reset(); resetSendErr != nil {
 			retError.errlist = append(retError.errlist, resetSendErr)
+			// the transaction could not be abandoned: do not send anything else into it
+			_ = client.Close()
 		}
 		return retError
 	}
